@@ -220,6 +220,132 @@ def syn_errs():
     return out
 
 
+# ---- the assert_validity functions as decision rows ------------------------------------------------
+def _atoms(cond, where):
+    """a condition of assert_validity as a conjunction of atoms (fails closed on anything it does not know)"""
+    cond = " ".join(cond.split())
+    out = []
+    for part in split_and(cond):
+        part = part.strip()
+        m = re.fullmatch(r"self\.(\w+)\.is_some\(\)", part)
+        if m:
+            out.append(("has", m.group(1)))
+            continue
+        m = re.fullmatch(r"self\.(\w+)", part)
+        if m:
+            out.append(("has", m.group(1)))
+            continue
+        m = re.fullmatch(r"let Optional::Optional \{ \.\. \} = self\.(\w+)", part)
+        if m:
+            out.append(("has", m.group(1)))
+            continue
+        if re.fullmatch(r"!matches!\(item(?:\.fields)?, Fields::Named\(_\)\)", part):
+            out.append(("notnamed",))
+            continue
+        if part == "field.ident.is_none()":
+            out.append(("notnamed",))
+            continue
+        if re.fullmatch(r'cfg!\(feature = "serde-compat"\)', part):
+            out.append(("compat",))
+            continue
+        m = re.fullmatch(r"!\((.*)\)", part)
+        if m and "||" in m.group(1):
+            ks = []
+            for q in m.group(1).split("||"):
+                mm = re.fullmatch(r"self\.(\w+)\.is_some\(\)", q.strip())
+                if not mm:
+                    raise TranslatorError("assert_validity in %s: unknown disjunct %r" % (where, q))
+                ks.append(mm.group(1))
+            out += [("not", k) for k in ks]
+            continue
+        raise TranslatorError("assert_validity in %s: unknown condition %r" % (where, part))
+    return out
+
+
+def split_and(cond):
+    parts, depth, cur = [], 0, ""
+    i = 0
+    while i < len(cond):
+        c = cond[i]
+        if c in "([{":
+            depth += 1
+        elif c in ")]}":
+            depth -= 1
+        if depth == 0 and cond.startswith("&&", i):
+            parts.append(cur)
+            cur = ""
+            i += 2
+            continue
+        cur += c
+        i += 1
+    return parts + [cur]
+
+
+def _stmts(body, where, outer, rows):
+    """walk `if COND { .. }` statements (nested one level deep), `match (..) { arms }` and syn_err! calls"""
+    i = 0
+    while i < len(body):
+        m = re.compile(r"\s*(if|match)\b").match(body, i)
+        if m and m.group(1) == "if":
+            j = body.index("{", m.end())
+            # `if let Optional::Optional { .. } = self.x {`: the first brace belongs to the pattern
+            while re.search(r"Optional::Optional\s*$", body[m.end():j]):
+                j = body.index("{", body.index("}", j) + 1)
+            cond = body[m.end():j]
+            inner, end = balanced(body, j)
+            atoms = _atoms(cond, where)
+            _stmts(inner, where, outer + atoms, rows)
+            i = end + 1
+            continue
+        if m and m.group(1) == "match":
+            j = body.index("(", m.end())
+            scrut, e1 = balanced(body, j, "(", ")")
+            comps = [re.sub(r"^&?self\.", "", x.strip()) for x in scrut.split(",")]
+            j2 = body.index("{", e1)
+            arms, end = balanced(body, j2)
+            for am in re.finditer(r"\(([^()]*(?:\([^()]*\)[^()]*)*)\)\s*=>\s*(syn_err(?:_spanned)?!\s*\()", arms):
+                pats = [x.strip() for x in split_top(am.group(1))]
+                if len(pats) != len(comps):
+                    raise TranslatorError("assert_validity in %s: match arm %r does not fit %r" % (where, am.group(1), comps))
+                atoms = []
+                for comp, pat in zip(comps, pats):
+                    if pat in ("true", "Some(_)"):
+                        atoms.append(("has", comp))
+                    elif pat in ("false", "None"):
+                        atoms.append(("not", comp))
+                    elif pat != "_":
+                        raise TranslatorError("assert_validity in %s: unknown pattern %r" % (where, pat))
+                call, _ = balanced(arms, am.end(2) - 1, "(", ")")
+                rows.append((outer + atoms, rust_str_literal(first_literal(call))))
+            i = end + 1
+            continue
+        m = re.compile(r"\s*syn_err(?:_spanned)?!\s*\(").match(body, i)
+        if m:
+            call, end = balanced(body, m.end() - 1, "(", ")")
+            rows.append((outer, rust_str_literal(first_literal(call))))
+            i = end + 1
+            continue
+        i += 1
+
+
+def validity_rows():
+    """{position: [(atoms, message)]} read from the four assert_validity functions, in source order"""
+    out = {}
+    for pos, rel in (("struct", "macros/src/attr/struct.rs"), ("enum", "macros/src/attr/enum.rs"), ("variant", "macros/src/attr/variant.rs"),
+                     ("field", "macros/src/attr/field.rs")):
+        src = read(rel)
+        m = re.search(r"fn assert_validity\s*\([^)]*\)\s*->\s*Result<\(\)>\s*\{", src)
+        if not m:
+            raise TranslatorError("translator could not find assert_validity in %s" % rel)
+        body, _ = balanced(src, m.end() - 1)
+        rows = []
+        _stmts(body, rel, [], rows)
+        if not rows:
+            raise TranslatorError("translator read no rows from assert_validity in %s" % rel)
+        out[pos] = rows
+    return out
+
+
 def documented_serde_keys():
     src = read("ts-rs/src/lib.rs")
     m = re.search(r"//! ## serde compatability(.*?)\n//! ##", src, re.S) or re.search(r"serde-compat(.*?)Supported serde attributes:(.*?)\n//!\s*\n//! ", src, re.S)
@@ -269,6 +395,14 @@ def generate():
     errs = syn_errs()
     L.append("Definition syn_err_messages : list (str * str) :=\n  %s." % coq_list(
         ["(%s, %s)" % (coq_str(f), coq_str(msg)) for f, msg in errs], sep=";\n   "))
+    # assert_validity: the decision rows (atoms: VHas key | VNot key | VNotNamed | VCompat)
+    L.append("Inductive vatom := VHas (k : str) | VNot (k : str) | VNotNamed | VCompat.")
+    for pos, rows in sorted(validity_rows().items()):
+        def atom(a):
+            return {"has": lambda: "VHas %s" % coq_str(a[1]), "not": lambda: "VNot %s" % coq_str(a[1]), "notnamed": lambda: "VNotNamed",
+                    "compat": lambda: "VCompat"}[a[0]]()
+        L.append("Definition validity_rows_%s : list (list vatom * str) :=\n  %s." % (pos, coq_list(
+            ["(%s, %s)" % (coq_list([atom(a) for a in atoms]), coq_str(msg)) for atoms, msg in rows], sep=";\n   ")))
     L.append("Definition documented_serde_keys : list str := %s." % coq_list([coq_str(k) for k in documented_serde_keys()]))
     return "\n".join(L) + "\n"
 
